@@ -3,6 +3,7 @@
 package mon
 
 import (
+	"crypto/rand"
 	"encoding/binary"
 	"encoding/json"
 	"fmt"
@@ -218,6 +219,11 @@ func RunShards(p *Prop, pc *ParentCtx, extraEnv []string) *Aggregate {
 				env := []string{"VMON_COLD_ONLY=1"}
 				if j%6 == 5 {
 					env = append(env, "GOMAXPROCS=4")
+				}
+
+				if j%5 == 2 {
+					// the process's very first use of the library meets an entropy source that fails its first reads
+					env = append(env, "VMON_FAILING_ENTROPY=1")
 				}
 
 				outs[slot] = runChildEnv(p, pc, 1000+j, env, ".cold")
@@ -661,6 +667,12 @@ func ShardMain(p *Prop, tier string, seed uint64, shard int, out string) int {
 	c := NewCtx(p, tier, seed, shard)
 
 	go livelockWatch(c, out)
+
+	if os.Getenv("VMON_FAILING_ENTROPY") != "" {
+		hr := newHostileReader(c.noiseRng)
+		hr.failures = 2
+		rand.Reader = hr
+	}
 
 	var stErr error
 	if os.Getenv("VMON_COLD_ONLY") == "" {
